@@ -319,6 +319,7 @@ RTRLIB_EXPORT int rtr_mgr_init(struct rtr_mgr_config **config_out, struct rtr_mg
 		return RTR_ERROR;
 
 	config->len = groups_len;
+	config->groups = NULL;
 
 	if (pthread_rwlock_init(&config->mutex, NULL) != 0) {
 		MGR_DBG1("Mutex initialization failed");
@@ -391,6 +392,9 @@ RTRLIB_EXPORT int rtr_mgr_init(struct rtr_mgr_config **config_out, struct rtr_mg
 	return RTR_SUCCESS;
 
 err:
+	/* an allocation that fails after a group's sockets were initialised must not be reported as success */
+	if (err_code == RTR_SUCCESS)
+		err_code = RTR_ERROR;
 	if (spki_table)
 		spki_table_free(spki_table);
 	if (pfxt)
